@@ -343,8 +343,17 @@ def run_v1(ctx: C.Ctx):
         run_v1_alias(ctx)
     finally:
         ctx.deadline = full
-    run_v1_features(ctx)
-    ctx.rule = ctx.rule_alias + ' ALSO ' + ctx.rule
+    if full is not None:
+        ctx.deadline = time.time() + max(0.0, full - time.time()) * 0.6
+    try:
+        run_v1_features(ctx)
+    finally:
+        ctx.deadline = full
+    rule_features = ctx.rule
+    # class families (inheritance) x entry points x histories (c14_family.py)
+    from harness.props import c14_family
+    c14_family.run(ctx, v1streams.OFFSET + 2_000_000)
+    ctx.rule = ctx.rule_alias + ' ALSO ' + rule_features + ' ALSO ' + ctx.rule
 
 
 def run_v1_alias(ctx: C.Ctx):
